@@ -214,6 +214,11 @@ def gen_matrix(rng: pyrandom.Random, cat=None, mmax=5, nmax=6, scale_exp=None):
             J[0], J[1] = J[1], J[0]
     elif cat == "nonconflict":
         J = [[abs(x) for x in r] for r in J]
+    elif cat == "few_values":
+        # every entry from a three-letter non-zero alphabet: columns are full of exact ties (several equal
+        # entries straddling the median), which order statistics must handle without double counting
+        alpha = rng.sample([-7, -3, -1, 1, 2, 5, 9], 3)
+        J = [[rng.choice(alpha) for _ in range(n)] for _ in range(m)]
     elif cat == "clustered":
         # a large common component plus small deviations (workers' gradients around a common mean): the
         # pairwise distances are O(1) while the norms are O(1e4), so |a|^2 + |b|^2 - 2<a,b> cancels
